@@ -378,3 +378,4 @@ def run(ck: common.Check, replay=None):
                       "count_periods is differential testing on integral ratios only (binary64 not modelled)")
     ck.trusted += ["fail-closed VHDL reader", "Vhdl.Sem", "Coro.ref with Wait (Models/Coro.v)", "specification machines of Models/StdSpecs.v"]
     ck.assumptions += ["durations/periods enumerated up to the listed bounds", "binary64 arithmetic of Duration.count_periods is not modelled"]
+    __import__("c16_rt").run_extra(ck, uc, res, failed)  # debounce / run-time limits against Models/TimingRt.v
